@@ -9,6 +9,7 @@ this: any other predicted refusal reason is counted as a generator artefact, nev
 import random
 
 from vmon import env  # noqa: F401
+from vmon.suitemon import suite_case
 from vmon.simkit import Mon
 from vmon.models.memmap import MapModel, REFUSE, ACCEPT, live_resources, live_windows, live_all, valid_name
 
@@ -36,6 +37,8 @@ def n_cases(tier):
 
 
 def gen_case(rng, tier, idx):
+    if idx == 0:
+        return {"suite": True}     # the repository\'s own test-suite under the monitors (vmon/suitemon.py)
     return {"steps": rng.randint(15, 70), "maps_per_level": [rng.randint(2, 5), rng.randint(1, 3), 1]}
 
 
@@ -60,6 +63,8 @@ def model_paths(mm):
 
 
 def run_case(case):
+    if case.get("suite"):
+        return suite_case(Mon(), ['C18'], ['C18_walks', 'refusals_seen'])
     rng = random.Random(case["stim_seed"])
     mon = Mon(trace_len=40)
     lives, models, level = [], [], []
